@@ -40,6 +40,7 @@ pub const TRACKED: &[&str] = &[
     "InterfaceInstantiation",
     "ProgramInstantiation",
     "UdpInstantiation",
+    "CheckerInstantiation",
     "HierarchicalInstance",
     "AnsiPortDeclaration",
     "InputDeclaration",
@@ -90,6 +91,7 @@ pub fn observe<'a, I: IntoIterator<Item = RefNode<'a>>>(it: I, text: &'a str) ->
             RefNode::InterfaceInstantiation(_) => push("InterfaceInstantiation", sub_ident(&n, text, |x| matches!(x, RefNode::InterfaceIdentifier(_)))),
             RefNode::ProgramInstantiation(_) => push("ProgramInstantiation", sub_ident(&n, text, |x| matches!(x, RefNode::ProgramIdentifier(_)))),
             RefNode::UdpInstantiation(_) => push("UdpInstantiation", sub_ident(&n, text, |x| matches!(x, RefNode::UdpIdentifier(_)))),
+            RefNode::CheckerInstantiation(_) => push("CheckerInstantiation", sub_ident(&n, text, |x| matches!(x, RefNode::CheckerIdentifier(_)))),
             RefNode::HierarchicalInstance(_) => push("HierarchicalInstance", sub_ident(&n, text, |x| matches!(x, RefNode::InstanceIdentifier(_)))),
             RefNode::AnsiPortDeclaration(_) => push("AnsiPortDeclaration", sub_ident(&n, text, |x| matches!(x, RefNode::PortIdentifier(_)))),
             RefNode::InputDeclaration(_) => {
